@@ -92,7 +92,7 @@ data = {
                         % (chr(c), rt('a' + chr(c) + 'b', 'braces', 'default'))} for c in ascii_excl],
     'excluded': excl,
     'classes': {str(cp): klass(chr(cp)) for cp in inv + ascii_ok + [10]},
-    'forbidden_sequences': ['--', '``', "''", '!`', '?`', '\n\n', '  ', ' \n', '\n '],
+    'forbidden_sequences': ['--', '``', "''", '!`', '?`', '\n\n\n', '\n \n', '\n\t\n'],
 }
 json.dump(data, open(os.path.join(ROOT, 'data', 'c08_alphabet.json'), 'w'), indent=0, ensure_ascii=True)
 import collections
